@@ -57,6 +57,8 @@ type callWorld struct {
 	ctxStr *z.StringSchema[string] // a test whose message renders what the call's context holds under k and k2
 	optK   z.ExecOption          // ONE option value (WithCtxValue(k, shared)) that several calls pass, as code that builds its options once does
 	optF   z.ExecOption          // likewise one WithIssueFormatter value
+	sentinel *z.ZogIssue         // a long-lived issue value the caller's functions return as their error (a package-level sentinel)
+	callers []*callObj           // values the caller owns and the library merely sees (never modified, never recycled)
 	objects []*callObj           // the shared schema objects, with the deep snapshot taken right after construction
 	kinds  []*callKind
 	byName map[string]*callKind
@@ -228,6 +230,8 @@ func newCallWorld(x *mc.X) *callWorld {
 	w.ctxStr = z.String().TestFunc(func(v any, c z.Ctx) bool { return false }, z.IssueCode("ctx_probe"), z.MessageFunc(func(e *z.ZogIssue, c z.Ctx) {
 		e.SetMessage(fmt.Sprintf("k=%v k2=%v", c.Get("k"), c.Get("k2")))
 	})).Min(3)
+	w.sentinel = (&z.ZogIssue{}).SetCode("account_blocked").SetMessage("this account is blocked").SetPath("account")
+	w.callers = append(w.callers, &callObj{name: "the sentinel issue returned by the caller's functions", obj: w.sentinel, snap: zh.CanonString(w.sentinel)})
 	w.optK = z.WithCtxValue("k", "shared")
 	w.optF = z.WithIssueFormatter(func(e *z.ZogIssue, c z.Ctx) { e.SetMessage(fmt.Sprintf("shared-formatter k2=%v", c.Get("k2"))) })
 	for _, o := range []struct {
@@ -258,6 +262,22 @@ func newCallWorld(x *mc.X) *callWorld {
 	add(&callKind{name: "String.Parse/two-failing-tests+ctx-value+formatter", class: "primitive", run: func(w *callWorld) (any, any) {
 		var d string
 		return w.str.Parse("ab", &d, z.WithCtxValue("k", "v"), z.WithIssueFormatter(func(e *z.ZogIssue, c z.Ctx) { e.SetMessage("own-formatter") })), &d
+	}})
+	// a user function that rejects by returning a long-lived *ZogIssue (the caller's own sentinel value)
+	add(&callKind{name: "Preprocess.Validate/function returns the caller's sentinel issue", class: "primitive", run: func(w *callWorld) (any, any) {
+		d := "blocked"
+		s := z.Preprocess(func(p *string, c z.Ctx) (string, error) { return "", w.sentinel }, z.String().Min(3))
+		return s.Validate(&d), &d
+	}})
+	add(&callKind{name: "Preprocess.Parse/function returns the caller's sentinel issue", class: "primitive", run: func(w *callWorld) (any, any) {
+		var d string
+		s := z.Preprocess(func(v string, c z.Ctx) (string, error) { return "", w.sentinel }, z.String().Min(3))
+		return s.Parse("blocked", &d), &d
+	}})
+	add(&callKind{name: "String.PostTransform/function returns the caller's sentinel issue", class: "primitive", run: func(w *callWorld) (any, any) {
+		d := "okay"
+		s := z.String().PostTransform(func(p any, c z.Ctx) error { return w.sentinel })
+		return s.Validate(&d), &d
 	}})
 	// option values built once and passed to several calls
 	add(&callKind{name: "String.Parse/shared-option-value", class: "primitive", run: func(w *callWorld) (any, any) {
@@ -628,6 +648,16 @@ func callsScenario(cfg callsCfg, first int) mc.Scenario {
 				break
 			}
 			if len(out.Viol) > 0 || !checkHeld() {
+				break
+			}
+			for _, o := range w.callers {
+				out.Traces++
+				if now := zh.CanonString(o.obj); now != o.snap {
+					report("callers-value-modified", k.class, "a value the caller owns ("+o.name+") reads differently after call "+k.name, o.snap, now)
+					break
+				}
+			}
+			if len(out.Viol) > 0 {
 				break
 			}
 			changed := false
